@@ -237,8 +237,17 @@ class Run:
 
 
 def best_of(sol):
-    t = sol.bestTrials[0]
-    return tuple(float(v) for v in t.point.floatVariables), float(t.functionValues[0].value)
+    """(point, value) of the reported optimum.  Only called once at least one trial is complete, so a Solution
+    whose best trial cannot be read (still the empty placeholder, no value holder, ...) is a violation of the
+    property under check, not a harness problem."""
+    try:
+        t = sol.bestTrials[0]
+        return tuple(float(v) for v in t.point.floatVariables), float(t.functionValues[0].value)
+    except (AttributeError, IndexError, TypeError, ValueError) as e:
+        from vlib.runner import fail
+        t = sol.bestTrials[0] if getattr(sol, "bestTrials", None) else None
+        fail("the reported solution has no readable best trial after completed trials (%s: %s; point=%r, values=%r)"
+             % (type(e).__name__, e, getattr(t, "point", None), getattr(t, "functionValues", None)))
 
 
 def hoelder_eps_cmp(d, eps):
